@@ -1,6 +1,7 @@
 """C05 - the payload stream obeys the protocol: typestate of the translator (structural clauses)."""
 from __future__ import annotations
 
+from rules import generic_rules as G
 from rules import stream_rules as T
 from sa.loader import Repo
 from sa.report import Check
@@ -27,3 +28,5 @@ def run(check: Check, repo: Repo, tier: str) -> None:
     T.announce_cover(check, repo)
     T.stale_loop_var(check, repo, repo.package_modules('execution.incremental'))
     check.floor('STALE-LOOP-VAR', 10, 'loops with loop-local names')
+    G.loop_counter(check, [f for m in repo.package_modules('execution') for f in m.functions()])
+    check.floor("LOOP-COUNTER", 2, "manually indexed loops in execution/")
